@@ -11,13 +11,14 @@ import z3
 from .sym import (SInt, SBool, SStr, SFloat, SOpt, PList, SList, PDict, PObj, SRef, Unsupported, Restart, lift, wrap,
                   is_intlike, as_int_term, Func, Builtin, ClassRef)
 from .bytemem import ByteMem
+from .grid import SGrid
 
 
 def clone_state(root):
     memo = {}
 
     def cl(v):
-        if isinstance(v, (PList, PDict, PObj, SList, ByteMem)) or (isinstance(v, dict)):
+        if isinstance(v, (PList, PDict, PObj, SList, ByteMem, SGrid)) or (isinstance(v, dict)):
             k = id(v)
             if k in memo:
                 return memo[k][1]
@@ -35,6 +36,9 @@ def clone_state(root):
                 n.fields = {kk: cl(x) for kk, x in v.fields.items()}
             elif isinstance(v, SList):
                 n = SList(v.ln, v.at, v.ekind)
+                memo[k] = (v, n)
+            elif isinstance(v, SGrid):
+                n = v.copy()
                 memo[k] = (v, n)
             elif isinstance(v, ByteMem):
                 n = ByteMem(v.ln, v.b8, v.w32, v.f64, v.d128)
@@ -61,6 +65,14 @@ def merge_into(ex, c, st1, st2_roots, env):
     def mv(a, b, where):
         # a: then-value, b: else-value (live)
         if a is b:
+            return b
+        if isinstance(b, SGrid) and isinstance(a, SGrid):
+            if id(b) in seen:
+                return b
+            seen.add(id(b))
+            b.nr = ite_int(c, a.nr, b.nr)
+            b.rl = b.rl if a.rl.eq(b.rl) else z3.If(c, a.rl, b.rl)
+            b.at = b.at if a.at.eq(b.at) else z3.If(c, a.at, b.at)
             return b
         if isinstance(b, ByteMem) and isinstance(a, ByteMem):
             if id(b) in seen:
